@@ -1051,6 +1051,22 @@ Qed.
 Definition Tplain (s : state) : Prop :=
   forall b r, binds s !! b = Some r -> forallb (tplain true) (b_cases r) = true.
 
+(* every bind record after the step has the case table of a record before it *)
+Definition CF (s s' : state) : Prop :=
+  forall b r', binds s' !! b = Some r' -> exists r, binds s !! b = Some r /\ b_cases r' = b_cases r.
+
+Lemma CF_binds s s' : binds s' = binds s -> CF s s'.
+Proof. intros E b r' Hr. rewrite E in Hr. eauto. Qed.
+
+Lemma CF_trans s1 s2 s3 : CF s1 s2 -> CF s2 s3 -> CF s1 s3.
+Proof.
+  intros A B b r3 H3. destruct (B b r3 H3) as (r2 & H2 & E2). destruct (A b r2 H2) as (r1 & H1 & E1).
+  exists r1. split; [exact H1|congruence].
+Qed.
+
+Lemma Tplain_CF s s' : CF s s' -> Tplain s -> Tplain s'.
+Proof. intros C T b r' Hr. destruct (C b r' Hr) as (r & Hr0 & ->). apply (T b r Hr0). Qed.
+
 Lemma select_tplain cases x : forallb (tplain true) cases = true -> tplain true (select cases x) = true.
 Proof.
   intros H. unfold select. destruct (nth_in_or_default (Z.to_nat (x mod Z.of_nat (length cases))) cases TNil) as [Hin| ->]; [|reflexivity].
@@ -1155,37 +1171,45 @@ Proof.
   - discriminate Hp.
 Qed.
 
+Definition readsDecl (k : kind) : bool := match k with KMap _ | KMap2 _ | KCutoff _ => true | _ => false end.
+
 (* a plain template that matches keeps matching when the nodes it reads keep their static fields *)
 Lemma matches_old fuel : forall s s' b' x e r root,
   tplain root e = true ->
-  (forall m, has s m -> nkind (nd s' m) = nkind (nd s m) /\ scope (nd s' m) = scope (nd s m) /\
-                        value (nd s' m) = value (nd s m) /\
-                        (isBindKind (nkind (nd s m)) = false -> decl (nd s' m) = decl (nd s m))) ->
+  (forall m, has s m -> scope (nd s m) = Some b' ->
+             nkind (nd s' m) = nkind (nd s m) /\ scope (nd s' m) = scope (nd s m) /\
+             value (nd s' m) = value (nd s m) /\
+             (readsDecl (nkind (nd s m)) = true -> decl (nd s' m) = decl (nd s m))) ->
   matches fuel s (Some b') x e r = true -> matches fuel s' (Some b') x e r = true.
 Proof.
-  induction fuel as [|fuel IH]; intros s s' b' x e r root Hp Hst H; [discriminate|].
+  induction fuel as [|fuel IH]; intros s s' b' x e r root Hp Hst0 H; [discriminate|].
   rewrite matches_S in *.
   assert (Hhas : forall n, scope (nd s n) = Some b' -> has s n).
   { intros n Hs. destruct (decide (has s n)) as [Hn|Hn]; [exact Hn|]. rewrite (not_has_nd _ _ Hn) in Hs. discriminate. }
+  assert (Hst : forall n, scope (nd s n) = Some b' ->
+             nkind (nd s' n) = nkind (nd s n) /\ scope (nd s' n) = scope (nd s n) /\
+             value (nd s' n) = value (nd s n) /\
+             (readsDecl (nkind (nd s n)) = true -> decl (nd s' n) = decl (nd s n))).
+  { intros n Hs. apply (Hst0 n (Hhas n Hs) Hs). }
   destruct r as [n|]; destruct e; try discriminate; try exact H; simpl in Hp; cbv zeta in *.
   - rewrite !andb_true_iff in H. destruct H as [[H1 H2] H3]. apply bool_decide_eq_true in H1, H3.
-    destruct (Hst n (Hhas n H3)) as (Ek & Es & Ev & _). rewrite Ek, Es, Ev, H1, H3.
+    destruct (Hst n H3) as (Ek & Es & Ev & _). rewrite Ek, Es, Ev, H1, H3.
     rewrite !bool_decide_eq_true_2 by reflexivity. rewrite H2. reflexivity.
   - rewrite !andb_true_iff in H. destruct H as [[H1 H2] H3]. apply bool_decide_eq_true in H1, H3.
-    destruct (Hst n (Hhas n H3)) as (Ek & Es & Ev & _). rewrite Ek, Es, Ev, H1, H3.
+    destruct (Hst n H3) as (Ek & Es & Ev & _). rewrite Ek, Es, Ev, H1, H3.
     rewrite !bool_decide_eq_true_2 by reflexivity. rewrite H2. reflexivity.
   - rewrite !andb_true_iff in H. destruct H as [[H1 H2] H3]. apply bool_decide_eq_true in H1, H2.
-    destruct (Hst n (Hhas n H2)) as (Ek & Es & _ & Ed). rewrite Ek, Es, (Ed ltac:(rewrite H1; reflexivity)), H1, H2.
+    destruct (Hst n H2) as (Ek & Es & _ & Ed). rewrite Ek, Es, (Ed ltac:(rewrite H1; reflexivity)), H1, H2.
     rewrite !bool_decide_eq_true_2 by reflexivity. simpl.
     destruct (decl (nd s n)) as [|a [|]]; try discriminate. apply (IH s s' b' x e (Some a) false); assumption.
   - apply andb_true_iff in Hp as [Hp1 Hp2].
     rewrite !andb_true_iff in H. destruct H as [[H1 H2] H3]. apply bool_decide_eq_true in H1, H2.
-    destruct (Hst n (Hhas n H2)) as (Ek & Es & _ & Ed). rewrite Ek, Es, (Ed ltac:(rewrite H1; reflexivity)), H1, H2.
+    destruct (Hst n H2) as (Ek & Es & _ & Ed). rewrite Ek, Es, (Ed ltac:(rewrite H1; reflexivity)), H1, H2.
     rewrite !bool_decide_eq_true_2 by reflexivity. simpl.
     destruct (decl (nd s n)) as [|a1 [|a2 [|]]]; try discriminate. apply andb_true_iff in H3 as [H3 H4].
     apply andb_true_iff. split; [apply (IH s s' b' x e1 (Some a1) false)|apply (IH s s' b' x e2 (Some a2) false)]; assumption.
   - rewrite !andb_true_iff in H. destruct H as [[H1 H2] H3]. apply bool_decide_eq_true in H1, H2.
-    destruct (Hst n (Hhas n H2)) as (Ek & Es & _ & Ed). rewrite Ek, Es, (Ed ltac:(rewrite H1; reflexivity)), H1, H2.
+    destruct (Hst n H2) as (Ek & Es & _ & Ed). rewrite Ek, Es, (Ed ltac:(rewrite H1; reflexivity)), H1, H2.
     rewrite !bool_decide_eq_true_2 by reflexivity. simpl.
     destruct (decl (nd s n)) as [|a [|]]; try discriminate. apply (IH s s' b' x e (Some a) false); assumption.
 Qed.
@@ -1986,7 +2010,7 @@ Section Assemble.
     { apply select_tplain. unfold bd. rewrite Hr. apply (TP b' r Hr). }
     apply (matches_mono (next s + 64)); [pose proof Hnext_le; lia|].
     apply (matches_old _ s s' b' _ _ _ true Hp); [|exact Hm].
-    intros m Hmm. destruct (S'old m Hmm) as (A1&A2&A3&A4). repeat split; try assumption.
+    intros m Hmm _. destruct (S'old m Hmm) as (A1&A2&A3&A4). repeat split; try assumption.
     intros Hbk. apply A4. intros ->. rewrite Hkmain in Hbk. discriminate.
   Qed.
   Local Lemma S'match_b : matchesOK s' b = true.
@@ -2110,11 +2134,19 @@ Section Assemble.
     apply (S'old y Hy).
   Qed.
 
-  Lemma assemble : (LInvC s' imm /\ Tplain s') /\ imm = None /\ stabNum s' = stabNum s /\
+  Local Lemma C_cases : CF s s'.
+  Proof.
+    intros b' r' Hr. rewrite (proj1 S'fields) in Hr. destruct (decide (b' = b)) as [->|Hne].
+    - destruct U_bdb as (_ & Ec & _). unfold bd in Ec. rewrite Hr in Ec. cbn in Ec.
+      destruct Hrec as (r1 & Hr1 & E1). exists r1. split; [exact Hr1|]. rewrite Ec, E1. reflexivity.
+    - rewrite (U_binds b' Hne) in Hr. eauto.
+  Qed.
+
+  Lemma assemble : (LInvC s' imm /\ Tplain s') /\ imm = None /\ stabNum s' = stabNum s /\ CF s s' /\
     (forall y, isDone s' y = true -> inGraph (nd s' y) = true -> isAlways (nkind (nd s' y)) = true ->
                isDone s y = true /\ inGraph (nd s y) = true /\ isAlways (nkind (nd s y)) = true).
   Proof.
-    split; [|split; [exact Himm|split; [exact S'k|]]].
+    split; [|split; [exact Himm|split; [exact S'k|split; [exact C_cases|]]]].
     2:{ intros y Hd Hgy Ha. destruct (decide (y = b)) as [->|Hne].
         - rewrite (S'proj nkind) in Ha by reflexivity. rewrite Hkbu in Ha. discriminate.
         - destruct (C_done y Hd Hgy Hne) as (_ & A & B & C). rewrite C in Ha. auto. }
@@ -2134,7 +2166,7 @@ End Assemble.
 Theorem bind_step_full fuel s b s' imm :
   Tplain s -> PInv s -> LInvC s (Some b) -> inGraph (nd s b) = true -> nkind (nd s b) = KBindLhs b ->
   recomputeNodeSerial fuel [] s b = Ok (s', None, imm) -> PInv s' ->
-  (LInvC s' imm /\ Tplain s') /\ imm = None /\ stabNum s' = stabNum s /\
+  (LInvC s' imm /\ Tplain s') /\ imm = None /\ stabNum s' = stabNum s /\ CF s s' /\
   (forall x, isDone s' x = true -> inGraph (nd s' x) = true -> isAlways (nkind (nd s' x)) = true ->
              isDone s x = true /\ inGraph (nd s x) = true /\ isAlways (nkind (nd s x)) = true).
 Proof.
@@ -2155,7 +2187,8 @@ Proof. intros E H b r Hr. rewrite E in Hr. apply (H b r Hr). Qed.
 Lemma rnsT fuel s m s' imm :
   Tplain s -> PInv s -> LInvC s (Some m) -> inGraph (nd s m) = true ->
   recomputeNodeSerial fuel [] s m = Ok (s', None, imm) ->
-  Tplain s' /\ PInv s' /\ LInvC s' imm /\ stabNum s' = stabNum s /\ (forall c, imm = Some c -> inGraph (nd s' c) = true).
+  Tplain s' /\ PInv s' /\ LInvC s' imm /\ stabNum s' = stabNum s /\ (forall c, imm = Some c -> inGraph (nd s' c) = true) /\
+  CF s s'.
 Proof.
   intros TP P L Hg H.
   destruct (recomputeNodeSerial_spec PT PT_struct bind_spec_holds fuel [] s m s' None imm Logic.I P eq_refl Hg H)
@@ -2163,46 +2196,51 @@ Proof.
   destruct (isLhs (nkind (nd s m))) eqn:El.
   - destruct (nkind (nd s m)) eqn:K; try discriminate El.
     pose proof (p_kinds _ P m (has_inGraph _ _ Hg)) as Hkk. rewrite K in Hkk. destruct Hkk as [-> _].
-    destruct (bind_step fuel s b s' imm TP P L Hg K H P') as [L' TP']. auto.
+    destruct (bind_step_full fuel s b s' imm TP P L Hg K H P') as ([L' TP'] & _ & _ & HC & _). auto 10.
   - pose proof (PInv_BFB s P (lc_shape _ _ L)) as HB.
     destruct (rns_stepB fuel s m s' None imm HB (has_inGraph _ _ Hg) (proj1 (PInv_heap s P)) El H) as [_ PP].
-    split; [apply (Tplain_binds s s' (sf_binds _ _ (stepPostB_sframe _ _ _ _ PP)) TP)|]. split; [exact P'|].
-    split; [exact (step_LInvC s m s' imm (PInv_Struct s P) HB (PInv_heap s P) L Hg El PP)|]. auto.
+    pose proof (sf_binds _ _ (stepPostB_sframe _ _ _ _ PP)) as Eb.
+    split; [apply (Tplain_binds s s' Eb TP)|]. split; [exact P'|].
+    split; [exact (step_LInvC s m s' imm (PInv_Struct s P) HB (PInv_heap s P) L Hg El PP)|].
+    split; [exact Hk|]. split; [exact Himm|apply CF_binds, Eb].
 Qed.
 
 Lemma chainT fuel : forall s n s' at_,
   Tplain s -> PInv s -> LInvC s (Some n) -> inGraph (nd s n) = true ->
   recomputeChain fuel [] s n = Ok (s', None, at_) ->
-  Tplain s' /\ PInv s' /\ LInvC s' None /\ stabNum s' = stabNum s.
+  Tplain s' /\ PInv s' /\ LInvC s' None /\ stabNum s' = stabNum s /\ CF s s'.
 Proof.
   induction fuel as [|fuel IH]; intros s n s' at_ TP P L Hg H; [discriminate|].
   cbn [recomputeChain] in H.
   destruct (recomputeNodeSerial fuel [] s n) as [[[s1 e1] imm]| |] eqn:E1; simpl in H; try discriminate.
   destruct e1 as [e1|]; [destruct imm; injection H as _ ? _; discriminate|].
-  destruct (rnsT fuel s n s1 imm TP P L Hg E1) as (TP1 & P1 & L1 & Hk1 & Himm).
+  destruct (rnsT fuel s n s1 imm TP P L Hg E1) as (TP1 & P1 & L1 & Hk1 & Himm & C1).
   destruct imm as [c|].
-  - destruct (IH s1 c s' at_ TP1 P1 L1 (Himm c eq_refl) H) as (TP' & P' & L' & Hk').
-    split; [exact TP'|]. split; [exact P'|]. split; [exact L'|congruence].
-  - injection H as <- _. auto.
+  - destruct (IH s1 c s' at_ TP1 P1 L1 (Himm c eq_refl) H) as (TP' & P' & L' & Hk' & C').
+    split; [exact TP'|]. split; [exact P'|]. split; [exact L'|]. split; [congruence|eapply CF_trans; eauto].
+  - injection H as <- _. auto 10.
 Qed.
 
 Lemma loopT fuel : forall s always s' at_ always',
   Tplain s -> PInv s -> LInvC s None ->
   passLoop fuel [] s always = Ok (s', None, at_, always') ->
-  Tplain s' /\ PInv s' /\ LInvC s' None /\ Heap.ids (heap s') = [] /\ stabNum s' = stabNum s.
+  Tplain s' /\ PInv s' /\ LInvC s' None /\ Heap.ids (heap s') = [] /\ stabNum s' = stabNum s /\ CF s s'.
 Proof.
   induction fuel as [|fuel IH]; intros s always s' at_ always' TP P L H; [discriminate|].
   cbn [passLoop] in H. destruct (PInv_heap s P) as [I _].
   destruct (Z.leb_spec (Heap.cnt (heap s)) 0) as [Hc|Hc].
-  { injection H as <- _ _. split; [exact TP|]. split; [exact P|]. split; [exact L|]. split; [apply cnt_zero_ids; assumption|reflexivity]. }
+  { injection H as <- _ _. split; [exact TP|]. split; [exact P|]. split; [exact L|]. split; [apply cnt_zero_ids; assumption|].
+    split; [reflexivity|apply CF_binds; reflexivity]. }
   destruct (Heap.removeMin (heap s)) as [[n w]|] eqn:Erm; [|discriminate].
   set (s2 := s <| heap := w |>) in *.
   destruct (recomputeChain fuel [] s2 n) as [[[s3 e3] at3]| |] eqn:E3; simpl in H; try discriminate.
   destruct e3 as [e3|]; [injection H as _ ? _ _; discriminate|].
   destruct (pop_LInvC s n w P L Erm) as (L2 & P2 & Hgn). fold s2 in L2, P2.
-  destruct (chainT fuel s2 n s3 at3 (Tplain_binds s s2 eq_refl TP) P2 L2 Hgn E3) as (TP3 & P3 & L3 & Hk3).
-  destruct (IH s3 _ s' at_ always' TP3 P3 L3 H) as (TP' & P' & L' & Hemp & Hk').
-  split; [exact TP'|]. split; [exact P'|]. split; [exact L'|]. split; [exact Hemp|]. rewrite Hk', Hk3. reflexivity.
+  destruct (chainT fuel s2 n s3 at3 (Tplain_binds s s2 eq_refl TP) P2 L2 Hgn E3) as (TP3 & P3 & L3 & Hk3 & C3).
+  destruct (IH s3 _ s' at_ always' TP3 P3 L3 H) as (TP' & P' & L' & Hemp & Hk' & C').
+  split; [exact TP'|]. split; [exact P'|]. split; [exact L'|]. split; [exact Hemp|].
+  split; [rewrite Hk', Hk3; reflexivity|]. apply (CF_trans s s3 s'); [|exact C'].
+  apply (CF_trans s s2 s3); [apply CF_binds; reflexivity|exact C3].
 Qed.
 
 (** C01 for every serial pass without a plan on a graph whose binds have plain templates (no
@@ -2217,7 +2255,7 @@ Proof.
   fold (passStart s) in EL. set (s1 := passStart s) in *.
   pose proof (LInvC_start s IV V) as L1. fold s1 in L1.
   pose proof (Inv_PInv_start s IV) as P1. fold (passStart s) in P1. fold s1 in P1.
-  destruct (loopT _ s1 [] sL at_ always (Tplain_binds s s1 eq_refl TP) P1 L1 EL) as (_ & PL & LL & Hemp & _).
+  destruct (loopT _ s1 [] sL at_ always (Tplain_binds s s1 eq_refl TP) P1 L1 EL) as (_ & PL & LL & Hemp & _ & _).
   specialize (Es (proj1 (lc_quiet _ _ LL)) (proj2 (lc_quiet _ _ LL))).
   pose proof (requeue_only_heap _ _ _ ER) as OR.
   assert (Hn : nodes s' = nodes sL) by (rewrite Es; cbn; apply (oh_nodes _ _ OR)).
@@ -2280,7 +2318,7 @@ Proof.
   destruct (isLhs (nkind (nd s m))) eqn:El.
   - destruct (nkind (nd s m)) eqn:K; try discriminate El.
     pose proof (p_kinds _ P m (has_inGraph _ _ Hg)) as Hkk. rewrite K in Hkk. destruct Hkk as [-> _].
-    destruct (bind_step_full fuel s b s' imm TP P L Hg K H P') as (_ & Ei & _ & Hd).
+    destruct (bind_step_full fuel s b s' imm TP P L Hg K H P') as (_ & Ei & _ & _ & Hd).
     split; [intros y A B C; left; apply (Hd y A B C)|]. intros c Ec. congruence.
   - pose proof (PInv_BFB s P (lc_shape _ _ L)) as HB.
     destruct (rns_stepB fuel s m s' None imm HB (has_inGraph _ _ Hg) (proj1 (PInv_heap s P)) El H) as [_ PP].
@@ -2302,7 +2340,7 @@ Proof.
   cbn [recomputeChain] in H.
   destruct (recomputeNodeSerial fuel [] s n) as [[[s1 e1] imm]| |] eqn:E1; simpl in H; try discriminate.
   destruct e1 as [e1|]; [destruct imm; injection H as _ ? _; discriminate|].
-  destruct (rnsT fuel s n s1 imm TP P L Hg E1) as (TP1 & P1 & L1 & Hk1 & Himm).
+  destruct (rnsT fuel s n s1 imm TP P L Hg E1) as (TP1 & P1 & L1 & Hk1 & Himm & _).
   destruct (rnsT2 fuel s n s1 imm TP P L Hg E1) as (Hd & Hna).
   assert (HA1 : AW s1 always).
   { intros y A B C. destruct (Hd y B C A) as [(X1 & X2 & X3)|[-> X]]; [apply (HA y X3 X1 X2)|apply Hn, X]. }
@@ -2326,7 +2364,7 @@ Proof.
   destruct e3 as [e3|]; [injection H as _ ? _ _; discriminate|].
   destruct (pop_LInvC s n w P L Erm) as (L2 & P2 & Hgn). fold s2 in L2, P2.
   pose proof (Tplain_binds s s2 eq_refl TP) as TP2.
-  destruct (chainT fuel s2 n s3 at3 TP2 P2 L2 Hgn E3) as (TP3 & P3 & L3 & Hk3).
+  destruct (chainT fuel s2 n s3 at3 TP2 P2 L2 Hgn E3) as (TP3 & P3 & L3 & Hk3 & _).
   assert (HA2 : AW s2 always2).
   { intros y A B C. unfold always2. destruct (isAlways (nkind (nd s2 n))); [apply elem_of_app; left|]; apply (HA y A B C). }
   assert (Hn2 : isAlways (nkind (nd s2 n)) = true -> n ∈ always2).
@@ -2382,7 +2420,7 @@ Qed.
 
 (** the quiescent invariant again, also after a pass in which binds swap: passes chain *)
 Theorem passS_ValInvB s s' :
-  Inv s -> ValInvB s -> Tplain s -> stabilize [] false s = Ok (s', None) -> ValInvB s' /\ Tplain s'.
+  Inv s -> ValInvB s -> Tplain s -> stabilize [] false s = Ok (s', None) -> ValInvB s' /\ Tplain s' /\ CF s s'.
 Proof.
   intros IV V TP H. pose proof (Inv_wfb s IV) as Hwf.
   destruct (wfb_transients _ Hwf) as (Hst & Hsd & Hsr & Hh).
@@ -2391,7 +2429,7 @@ Proof.
   pose proof (LInvC_start s IV V) as L1. fold s1 in L1.
   pose proof (Inv_PInv_start s IV) as P1. fold (passStart s) in P1. fold s1 in P1.
   pose proof (Tplain_binds s s1 eq_refl TP) as TP1.
-  destruct (loopT _ s1 [] sL at_ always TP1 P1 L1 EL) as (TPL & PL & LL & Hemp & HkL).
+  destruct (loopT _ s1 [] sL at_ always TP1 P1 L1 EL) as (TPL & PL & LL & Hemp & HkL & CL).
   assert (HA1 : AW s1 []).
   { intros y _ Hd _. exfalso. pose proof (stamps_node_true _ _ (vb_stamps _ V y)). unfold isDone in Hd. apply Z.eqb_eq in Hd.
     change (recomputedAt (nd s y) = stabNum s) in Hd. lia. }
@@ -2410,7 +2448,8 @@ Proof.
   pose proof (PInv_Struct sL PL) as HSL. pose proof (PInv_BFB sL PL (lc_shape _ _ LL)) as HBL.
   assert (HkLs : stabNum sL = stabNum s) by exact HkL.
   split.
-  2:{ apply (Tplain_binds sL s' Hb). exact TPL. }
+  2:{ split; [apply (Tplain_binds sL s' Hb); exact TPL|].
+      apply (CF_trans s sL s'); [|apply CF_binds, Hb]. apply (CF_trans s s1 sL); [apply CF_binds; reflexivity|exact CL]. }
   constructor.
   - intros n y E. rewrite Hn in E. exact (lc_shape _ _ LL n y E).
   - intros n. unfold stamps_node. rewrite Hnd, Hk'. pose proof (stamps_node_false _ _ (lc_stamps _ _ LL n)) as Hs.
